@@ -94,6 +94,12 @@ func main() {
 		os.Exit(2)
 	}
 	rc := &engine.RunCtx{Property: id, Tier: tier, Seed: seed, Workers: workers, Budget: budget, Known: known, Start: time.Now()}
+	defer func() {
+		if r := recover(); r != nil { // a harness panic is never a verdict
+			fmt.Printf("HARNESS-ERROR property=%s panic: %v\n", id, r)
+			os.Exit(2)
+		}
+	}()
 	res := chk.Run(rc)
 	// Replay-twice rule: a violation is only reported if its replay file reproduces it.
 	if len(res.Violations) > 0 && chk.Replay != nil {
